@@ -5,6 +5,7 @@ import FemtoVerif.Model.Trench
 import FemtoVerif.Model.TrenchProg
 import FemtoVerif.Model.Waveguide
 import FemtoVerif.Model.Gcode
+import FemtoVerif.Model.Sampling
 import Mathlib.Tactic.Ring
 import Mathlib.Algebra.Order.Field.Rat
 
@@ -16,5 +17,15 @@ def dl (cmd_rate_max speed : Rat) : Rat :=
 
 theorem dl_tie (cmd_rate_max speed : Rat) : dl cmd_rate_max speed = speed / cmd_rate_max := by
   unfold dl; ring
+
+/-- `LaserPath.num_subdivisions` as written in `laserpath.py` (`f` is the speed after defaulting) -/
+def num_subdivisions (cmd_rate_max f l_curve : Rat) : Int :=
+  (if (Rat.ceil (l_curve / (f / cmd_rate_max))) < (3 : Int) then (3 : Int) else (Rat.ceil (l_curve / (f / cmd_rate_max))))
+
+theorem num_subdivisions_tie (cmd_rate_max f l_curve : Rat) (hf : ¬ f < 1 / 1000000) :
+    Femto.Smp.numSubdivisions f cmd_rate_max l_curve = .ok (num_subdivisions cmd_rate_max f l_curve).toNat := by
+  unfold num_subdivisions Femto.Smp.numSubdivisions
+  simp only [hf, if_false]
+  split <;> simp_all
 
 end Femto.Gen.C13
